@@ -7,7 +7,7 @@ environment: FAKE_COP_DIR  state directory containing script.json = {"step":...,
 steps : before_ready | after_ready | req (before reading the k-th request) | reply (instead of the k-th reply) |
         midreply (after the first half of the k-th reply)
 faults: exit0 exit1 kill9 close_stdin close_stdout close_both hang_exit          (process / descriptor faults)
-        truncated oversized wrong_type garbage bad_version str_wrap arr_huge err_long   (message faults)
+        truncated oversized wrong_type garbage bad_version str_wrap arr_huge deep_nest err_long   (message faults)
 Every pid this program creates is appended to FAKE_COP_DIR/pids so the harness can check for survivors by pid."""
 import os, sys, json, struct, signal, subprocess, time
 
@@ -115,6 +115,10 @@ def main():
             wr(struct.pack('<BBHI', 1, 0x10, 0, 5) + b'\x05\xff\xff\xff\xff')
         elif fault == 'arr_huge':
             wr(struct.pack('<BBHI', 1, 0x10, 0, 7) + b'\x07\x01\xff\xff\xff\xff\x00')
+        elif fault == 'deep_nest':
+            depth = 400000
+            pl = b'\x07\x01\x01\x00\x00\x00' * depth + b'\x00'
+            wr(struct.pack('<BBHI', 1, 0x10, 0, len(pl)) + pl)
         elif fault == 'err_long':
             wr(struct.pack('<BBHI', 1, 0x11, 0, 1000) + b'E' * 1000)
         else:
